@@ -101,9 +101,9 @@ PROPS = {
         "assumptions": ["Grow(n<0) and memory exhaustion are outside the claim", "a panic raised while a panic payload is printed, or by the Sprintfn callback itself, propagates (as in fmt)"],
     },
     "C12": {
-        "gens": [Q("q12", 60, 600, shards=4)],
+        "gens": [Q("q12", 60, 600, shards=4), Q("printer", 1600, 60000)],
         "qtags": ["Q:C12", "Q:C11"],
-        "rule": "histories of 1-6 prior calls (outputs > 64 KiB, nested panics incl. inside nested printers, %w and misused %w, argument indexes with '*', Safe/Unsafe around nested printers, panicking Sprintfn callback, bad verbs, random printer cases) followed by 16 fixed probes whose results are compared with those of a freshly started process (the harness re-executes itself); pool allocation counter proves the probes ran on recycled printers; then 16 goroutines x 40 mixed calls compared with the same baseline",
+        "rule": "histories of 1-6 prior calls (outputs > 64 KiB, nested panics incl. inside nested printers, %w and misused %w, argument indexes with '*', Safe/Unsafe around nested printers, panicking Sprintfn callback, bad verbs, random printer cases) followed by 16 fixed probes whose results are compared with those of a freshly started process (the harness re-executes itself); pool allocation counter proves the probes ran on recycled printers; then 16 goroutines x 40 mixed calls compared with the same baseline; after EVERY random printer case: three unrelated calls on the recycled printers must give the results taken at process start, and the string already returned to the caller must still read the same (it shares the printer's backing array); " + PRINTRULE,
         "assumptions": ["schedules and data races: runtime evidence only (16 goroutines, results compared); not a theorem"],
     },
     "C13": {
